@@ -9,7 +9,7 @@ S=/var/tmp/mut/repo-$$
 rm -rf "$S"; mkdir -p /var/tmp/mut
 git clone -q /repo "$S" || exit 2
 if ! git -C "$S" apply "$PATCH"; then echo "PATCH DOES NOT APPLY"; rm -rf "$S"; exit 2; fi
-cd /verif
+cd "$(dirname "$(readlink -f "$0")")/../.."
 for P in "$@"; do
   WHATSHAP_REPO="$S" WHVERIF_OUTROOT=/var/tmp/mut/out harness/check.py "$P" --tier "${TIER:-quick}" > /var/tmp/mut/out-$$-$P.txt 2>&1
   rc=$?
